@@ -19,6 +19,8 @@ from common import nlist
 sys.path.insert(0, os.path.join(C.VERIF, "translator"))
 
 LEVEL = "proof"
+MY_GUARDS = {"tr_lang", "lang_table", "complex_rules", "registry_len_adjust", "lang_cmp_shape", "new_script_tags", "old_script_special",
+             "no_gen3_tag", "language_from_str", "known_scripts", "script_from_iso", "script_fallbacks", "lang_fallback"}
 
 HDR = ("From Coq Require Import List NArith Bool.\n"
        "From RB Require Import Base.Bytes Gen.LangTable Model.Tag Corr.Common Corr.TagC.\n"
@@ -760,9 +762,48 @@ def select_part(chk, binp, flavour, thorough, rows, fails, dis):
         chk.sample({"generated_font_case": {k: v for k, v in api_raw[len(api_raw) // 2].items()}})
 
 
-def model_search(chk, pr):
-    """When a proof broke: name the theorem(s) and let the implementation-level search speak."""
-    return ["proof:" + f for f in pr["failed"]]
+def model_search(chk, pr, binp, rows, prelude, arms):
+    """A proof broke: search the MODEL for concrete strings that contradict the statements (registry languages
+    that do not reach their first registered tag; well-formed strings on which the model panics), then confirm
+    each on the implementation. Returns (broken descriptions, confirmed failing inputs)."""
+    broken = ["proof:" + f for f in pr["failed"]]
+    firsts = first_registered(rows)
+    langs = list(firsts)
+    cands = langs + [l for _, l, _ in language_inputs(chk, rows, prelude, arms, False)[0] if l]
+    cands = list(dict.fromkeys(cands))
+    jobs = []
+    per = 400
+    for i in range(0, len(cands), per):
+        body = HDR + "Definition cases : list bytes := [\n%s].\nEval vm_compute in (map model_first cases).\n" % ";\n".join(coq_bytes(c) for c in cands[i:i + per])
+        jobs.append(("c18_msearch_%d" % (i // per), body))
+    res = C.coq_eval_many(jobs)
+    found = []
+    for name, out in sorted(res.items()):
+        if isinstance(out, Exception):
+            broken.append("model-search-failed:" + name)
+            continue
+        vals = C.parse_eval_lists(out)
+        if not vals:
+            continue
+        base = int(name.rsplit("_", 1)[1]) * per
+        for k, v in enumerate(vals[0]):
+            l = cands[base + k]
+            if v == 1:
+                found.append((l, "model-panics"))
+            elif l in firsts and v != firsts[l]:
+                found.append((l, "model-misses-first-registered-tag"))
+    confirmed = []
+    if binp and found:
+        ans = run_lines(binp, "tags", ["- h" + hx(l) for l, _ in found])
+        for (l, why), a in zip(found, ans):
+            o = parse_tags(a)
+            if o is None:
+                confirmed.append({"what": "language-string-panics", "language": l, "found_by": "model search (" + why + ")", "panic": a[1]})
+            elif l in firsts and ((firsts[l] == 0 and o[1]) or (firsts[l] != 0 and (not o[1] or o[1][0] != firsts[l]))):
+                confirmed.append({"what": "registry-language-misses-first-registered-tag", "language": l, "found_by": "model search (" + why + ")",
+                                  "expected_first_tag": tag_str(firsts[l]) if firsts[l] else "(none)", "got": [tag_str(t) for t in o[1]]})
+    chk.note("model_search", {"candidates": len(cands), "model_counterexamples": [x for x in found[:20]], "confirmed_on_implementation": len(confirmed)})
+    return broken, confirmed
 
 
 def run(chk):
@@ -775,13 +816,18 @@ def run(chk):
                        "strings claimed by the complex matcher, fonts with more than one script record where a script was selected")
     pr = chk.prove(extra_targets=["Corr/TagC.vo"])
     broken = []
-    if chk.guards_failed:
-        broken += ["translator-guard:%s (%s)" % g for g in chk.guards_failed]
-    if not pr["ok"]:
-        broken += model_search(chk, pr)
+    mine = [g for g in chk.guards_failed if g[0] in MY_GUARDS or g[0].startswith("complex_helper_")]
+    chk.note("translator_guards_failed", mine)   # guards of other properties' extractors are not this check's business
+    if mine:
+        broken += ["translator-guard:%s (%s)" % tuple(g) for g in mine]
     fails, dis = [], []
     rows, prelude, arms, known, aliases = load_tables(chk)
     ok, binp, blog = C.cargo_build("release", hooks=True)
+    if not pr["ok"]:
+        ok_model, mlog = C.coq_make(["Corr/TagC.vo"])
+        b, confirmed = model_search(chk, pr, binp if ok else None, rows, prelude, arms) if ok_model else (["proof:" + f for f in pr["failed"]] + ["model-does-not-build"], [])
+        broken += b
+        fails += confirmed
     if not ok:
         broken.append("hook-build-failed: " + blog[-600:])
     else:
